@@ -112,7 +112,7 @@ func (p *byteProvider) val(depth int) sim.Val {
 // by the harness' independent decoder.
 func FuzzC14Value(f *testing.F) {
 	f.Add([]byte{0})
-	f.Add([]byte{1, 0, 1, 'a', 2, 0x43, 0x40, 0, 0, 0, 0, 0, 1})                  // 2^53+1
+	f.Add([]byte{1, 0, 1, 'a', 2, 0x43, 0x40, 0, 0, 0, 0, 0, 1}) // 2^53+1
 	f.Add([]byte{2, 6, 2, 1, 0, 0, 3, '"', '\\', 0, 8, 2, 3, 0xff, 0xff, 0xff, 0xff, 0xff, 0xff, 0xff, 0xff})
 	f.Add([]byte{3, 6, 3, 1, '/', 6, 1, 1, '~', 8, 3, 0, 0, 0})
 	f.Add([]byte{3, 8, 3, 8, 2, 8, 1, 0, 2, 0xe2, 0x80, 0xa8})
